@@ -17,6 +17,7 @@ LEVEL = "proof"
 SIG_INDEL = "C07/anchored-or-noninternal-indel-window"
 SIG_INSIDE = "C07/anywhere-read-inside-adapter"
 SIG_BEYOND = "C07/window-beyond-read"
+SIG_REGULAR = "C07/regular-partial-overlap-indel-window"   # found while building this check: regular adapters are affected too
 SIG_NUL = "C07/nul-in-read-vs-n-wildcard"     # found while building this check (not among the design-phase findings)
 SIG_OTHER = "C07/other"
 NONINTERNAL = ("prefix", "suffix", "nifront", "niback")
@@ -107,8 +108,16 @@ def poskmers_cases(ctx, n):
 
 def gen_cfg(rng):
     r = rng.random()
-    if r < 0.55:
+    if r < 0.45:
         cfg = gens.gen_adapter_cfg(rng)
+    elif r < 0.6:
+        # regular adapters that allow two or more errors: partial overlaps with several insertions
+        ty = rng.choice(["back", "front", "rightmost", "back", "front", "anywhere", "niback", "nifront"])
+        rate = rng.choice([0.1, 0.1, 0.15, 0.2, 0.25, 0.3, 0.34])
+        m = rng.randint(max(6, int(2 / rate) + 1), 45)
+        cfg = dict(ty=ty, seq=gens.rand_seq(rng, m, rng.choice(["ACGT", "ACGT", "ACGT", "ACGTN"])),
+                   max_errors=rate, min_overlap=rng.randint(1, 6), read_wildcards=rng.random() < 0.1,
+                   adapter_wildcards=rng.random() < 0.8, indels=True, force_anywhere=False)
     elif r < 0.9:
         # the classes the defects live in, with parameters that make the prefilter bite
         ty = rng.choice(["prefix", "suffix", "nifront", "niback", "anywhere", "anywhere", "front", "back", "rightmost"])
@@ -143,9 +152,50 @@ def indel_mutate(rng, s, k):
     return "".join(cp)
 
 
+def finder_verdict(cfg, a, read):
+    return a.kmer_finder.kmers_present(read[::-1] if cfg["ty"] == "rightmost" else read)
+
+
+def overlap_with_insertions(rng, cfg, a, tries=25):
+    """A piece of the adapter that ends (3' types) / starts (5' types) `d` characters before a level boundary of the error
+    table, with d+1..e insertions, so that the read part is longer than the window computed for that level. Among `tries`
+    random placements of the insertions, one that the adapter's own finder rejects is preferred (adversarial search)."""
+    seq = gens.concretize(rng, a.sequence)
+    m = len(seq)
+    rate = a.max_error_rate
+    tops = {}
+    for i in range(1, m + 1):
+        tops[int(i * rate)] = i          # largest length with that many errors
+    levels = [e for e in tops if e >= 1]
+    if not levels:
+        return None
+    e = max(levels) if rng.random() < 0.6 else rng.choice(levels)
+    d = rng.randint(0, min(e - 1, 2)) if rng.random() < 0.3 else min(e - 1, 1)
+    L = tops[e] - d
+    if L < 2:
+        return None
+    nins = rng.randint(d + 1, e)
+    five = cfg["ty"] in ("front", "nifront", "prefix", "rightmost")
+    base = seq[m - L:] if five else seq[:L]
+    junk = gens.rand_seq(rng, rng.randint(0, 8))
+    rd = None
+    for _ in range(tries):
+        piece = list(base)
+        for _ in range(nins):
+            piece.insert(rng.randint(1, len(piece) - 1), rng.choice("ACGT"))
+        rd = "".join(piece) + junk if five else junk + "".join(piece)
+        if not hasattr(a.kmer_finder, "positions_and_kmers") or not finder_verdict(cfg, a, rd):
+            break
+    return rd
+
+
 def gen_read(rng, cfg, a):
     seq = a.sequence
     m = len(seq)
+    if a.indels and rng.random() < 0.3:
+        rd = overlap_with_insertions(rng, cfg, a)
+        if rd is not None:
+            return rd
     if "N" in seq and rng.random() < 0.04:
         # a NUL byte (legal ASCII in FASTA/FASTQ) where the adapter has its N wildcard
         cp = "".join("\0" if c == "N" and rng.random() < 0.6 else rng.choice(gens.IUPAC_EXP.get(c, c)) for c in seq)
@@ -222,6 +272,9 @@ def classify(cfg, a, read, mt):
         return SIG_NUL
     if cfg["ty"] in NONINTERNAL and a.indels and mt.errors > 0:
         return SIG_INDEL
+    if cfg["ty"] in ("back", "front", "rightmost", "anywhere") and a.indels and mt.errors >= 2 and mt.astop - mt.astart < m \
+            and (mt.astart == 0 or mt.astop == m):
+        return SIG_REGULAR
     if (cfg["ty"] == "anywhere" or cfg.get("force_anywhere")) and mt.astart > 0 and mt.astop < m \
             and mt.rstart == 0 and mt.rstop == len(read):
         return SIG_INSIDE
@@ -384,8 +437,8 @@ def dedupe_failures(ctx, keep_per_sig=12):
     by = {}
     for f in ctx.failures:
         by.setdefault(f.signature, []).append(f)
-    order = [SIG_OTHER] + sorted(k for k in by if k not in (SIG_OTHER, SIG_INDEL, SIG_INSIDE, SIG_BEYOND, SIG_NUL)) + \
-            [SIG_INDEL, SIG_INSIDE, SIG_BEYOND, SIG_NUL]
+    order = [SIG_OTHER] + sorted(k for k in by if k not in (SIG_OTHER, SIG_INDEL, SIG_INSIDE, SIG_BEYOND, SIG_NUL, SIG_REGULAR)) + \
+            [SIG_INDEL, SIG_INSIDE, SIG_BEYOND, SIG_REGULAR, SIG_NUL]
     heads, tails = [], []
     for sig in order:
         fl = sorted(by.get(sig, []), key=lambda f: (len(f.input["cfg"]["seq"]) + len(f.input["read"]), f.input["cfg"]["seq"], f.input["read"]))
@@ -416,7 +469,7 @@ def extended_search(ctx):
 
 
 def extra_coverage(ctx):
-    return dict(expected_failure_classes=[SIG_INDEL, SIG_INSIDE, SIG_BEYOND, SIG_NUL],
+    return dict(expected_failure_classes=[SIG_INDEL, SIG_INSIDE, SIG_BEYOND, SIG_REGULAR, SIG_NUL],
                 note="kmers_present cases in which a whole k-mer fits behind the read's terminating NUL inside an unclamped window are "
                      "excluded from the exact correspondence (verdict depends on foreign memory) and only checked one-sidedly")
 
